@@ -236,7 +236,7 @@ Inductive creq :=
 | RPmDs (name : bytes) (ds : list bytes)  (* newPMFromDataset: data-set name, options.Datasets[name] *)
 | RPmF (lines : list bytes)               (* newPMFromFile: trimmed, non-empty, non-comment, lower-cased lines *)
 | RRx (pf : bool) (args : bytes)          (* newRX: options.RxPreFilterEnabled, options.Arguments *)
-| RBinRx (args : bytes)                   (* newBinaryRX: options.Arguments *)
+| RBinRx (args : bytes)                   (* newBinaryRX: options.Arguments (newRX passes its flagged pattern "(?sm)..." there) *)
 | RRe (s : resite) (pat : bytes)          (* regexp.Compile(pat) at one of the six sites *)
 | RSchema (content : bytes).              (* NewValidateSchema: bytes of the schema file *)
 
